@@ -509,6 +509,31 @@ def r07_4(run):
     h = [n for n in walk_unit(rf) if isinstance(n, ast.ExceptHandler)]
     ok = bool(h) and any(isinstance(n, ast.Call) and dotted(n.func) == 'Router' for n in walk_unit(rf))
     run.ob('R07.4', rf, rf.node, 'relays missing from the consensus get a placeholder router', ok, slot='unknown-relay', message='router_from_id no longer creates a placeholder for unknown relays')
+    # a hop is identified by its fingerprint: every lookup in the relay table made by router_from_id is keyed by the leading
+    # "$<40 hex>" of the hop text (a slice of the argument that starts at its beginning), never by the nickname after "~" / "="
+    arg = rf.params[1]
+    defs = local_defs(rf)
+    k = 0
+    for n in walk_unit(rf):
+        key = None
+        if isinstance(n, ast.Subscript) and dotted(n.value) == 'self.routers' and isinstance(n.ctx, ast.Load):
+            key = n.slice
+        elif isinstance(n, ast.Call) and dotted(n.func) in ('self.routers.get', 'self.routers.__getitem__', 'self.routers.pop') and n.args:
+            key = n.args[0]
+        elif isinstance(n, ast.Compare) and len(n.ops) == 1 and isinstance(n.ops[0], (ast.In, ast.NotIn)) and dotted(n.comparators[0]) == 'self.routers':
+            key = n.left
+        if key is None:
+            continue
+        k += 1
+        kv = key
+        if isinstance(kv, ast.Name) and single_def(defs, kv.id) and single_def(defs, kv.id)[0] == 'expr':
+            kv = single_def(defs, kv.id)[1]
+        ok = dotted(kv) == arg or (isinstance(kv, ast.Subscript) and dotted(kv.value) == arg and isinstance(kv.slice, ast.Slice) and
+                                   (kv.slice.lower is None or const(kv.slice.lower) == 0) and const(kv.slice.upper) == 41)
+        run.ob('R07.4', rf, n, 'a hop is looked up by its fingerprint only', ok, slot='hop-by-fingerprint',
+               message='router_from_id looks a hop up with %s: a relay that is not in the consensus but carries the nickname of one that is gets listed as that relay '
+                       '(wrong fingerprint in Circuit.path)' % src(key)[:40])
+    run.floor('R07.4', 'relay-table lookups in router_from_id', k, 1)
 
 
 RULES = [
@@ -524,6 +549,7 @@ RULES.insert(2, ('R07.3', 'after CLOSED/FAILED/DETACHED the stream is under no c
 from ..selftest import M  # noqa: E402
 FS, FT, FC = 'txtorcon/stream.py', 'txtorcon/torstate.py', 'txtorcon/circuit.py'
 MUTANTS = [
+    M('hop-by-nickname', 'txtorcon/torstate.py', "                is_named = routerid[41] == '='\n", "                is_named = routerid[41] == '='\n                known = self.routers.get(nick, None)\n                if known is not None:\n                    return known\n", ['R07.4']),
     M('detach-forgets-address', 'txtorcon/stream.py', "                self.circuit.streams.remove(self)\n                self.circuit = None\n\n            # FIXME does this count as closed?", "                self.circuit.streams.remove(self)\n                self.circuit = None\n            self.target_addr = None\n\n            # FIXME does this count as closed?", ['R07.4']),
     M('remap-only-ips', 'txtorcon/stream.py', "            self.target_addr = maybe_ip_addr(args[3][:args[3].rfind(':')])", "            addr_ = maybe_ip_addr(args[3][:args[3].rfind(':')])\n            if not isinstance(addr_, str):\n                self.target_addr = addr_", ['R07.4']),
     M('closed-after-failed-swallowed', 'txtorcon/torstate.py', "        stream_id = int(args[0])\n        wasnew = False\n        if stream_id not in self.streams:", "        stream_id = int(args[0])\n        if args[1] == 'CLOSED' and stream_id in getattr(self, '_failed', ()):\n            return\n        wasnew = False\n        if stream_id not in self.streams:", ['R07.1']),
